@@ -230,8 +230,9 @@ class Runner:
             detail = f"{snap_diff(before, after)}; outcome={outcome}" + (f"; fault at {fired}" if fired else "") + (f"; k={k}" if k else "")
             self.violate("argument-unchanged", desc["op"], sid, detail, where)
             if mode in ("line", "alloc") and isinstance(step.get("fault"), dict):
-                step["fault"]["k"] = k  # literal position for the replay / minimiser
-                step["fault"]["mode"] = "one"
+                # literal positions for the replay / minimiser (one per violation class is enough; keep a few)
+                found = step["fault"].setdefault("found", {})
+                found.setdefault(outcome.split(":")[0], k)  # the first position of every violation class
         if mode in ("line", "alloc") and outcome != "returned":
             gafter = _globals_snapshot()
             if gafter != gbefore:
@@ -266,7 +267,7 @@ class Runner:
                 self.bump("undecided:no-fault-position")
                 return
             if fault.get("mode") == "one":
-                ks = [min(fault["k"], total)]
+                ks = [min(k, total) for k in fault["ks"]]
             elif fault.get("mode") == "all":
                 if total <= 1500:
                     ks = list(range(1, total + 1))
@@ -278,8 +279,7 @@ class Runner:
                 ks = sorted({1, total} | {1 + ch.below(total) for _ in range(3)})
             for k in ks:
                 self.one_call(step, "line", k)
-                if self.violations and fault.get("mode") == "one":
-                    break
+            self._freeze(fault)
         else:
             self.env.begin_step(step["id"])
             if self.one_call(step, "none", None) is None:
@@ -287,11 +287,20 @@ class Runner:
             total = self.env.alloc_index
             fault["n"] = total
             if fault.get("mode") == "one":
-                ks = [fault["k"]]
+                ks = list(fault["ks"])
             else:
                 ks = list(range(1, min(total, 200) + 1))
             for k in ks:
                 self.one_call(step, "alloc", k)
+            self._freeze(fault)
+
+    @staticmethod
+    def _freeze(fault: dict) -> None:
+        """After a search that found violating positions, the plan carries them as literals."""
+        found = fault.pop("found", None)
+        if found and fault.get("mode") != "one":
+            fault["mode"] = "one"
+            fault["ks"] = sorted(set(found.values()))
 
 
 def execute(plan: dict) -> dict:
@@ -320,6 +329,10 @@ def simplify(plan: dict):
         # drop the fault (is it a fault-free violation?)
         if step.get("fault"):
             yield dict(plan, steps=plan["steps"][:i] + [dict(step, fault=None)] + plan["steps"][i + 1:])
+            ks = step["fault"].get("ks") or []
+            if len(ks) > 1:
+                for k in ks:
+                    yield dict(plan, steps=plan["steps"][:i] + [dict(step, fault=dict(step["fault"], ks=[k]))] + plan["steps"][i + 1:])
         # shrink polynomial arguments
         for j, arg in enumerate(desc["args"]):
             if isinstance(arg, dict) and "poly" in arg:
